@@ -1,9 +1,10 @@
 import Driver.Util
 import Driver.Bip
+import Driver.Slots
 
 open Driver
 
 def components : List (String × (Script → Result)) :=
-  [("bip", Driver.Bip.check)]
+  [("bip", Driver.Bip.check), ("slots", Driver.Slots.check)]
 
 def main (args : List String) : IO UInt32 := Driver.mainWith components args
